@@ -4,6 +4,7 @@ import (
 	"bytes"
 	"errors"
 	"fmt"
+	"io"
 
 	"github.com/philpearl/avro"
 )
@@ -43,7 +44,7 @@ func c09FileWriterDirect(r *Run, faults bool) {
 			}
 			return
 		}()}
-		run := func(w *w9RecWriter) (errs []error, panicked any, hdr []byte) {
+		run := func(w io.Writer) (errs []error, panicked any, hdr []byte) {
 			defer func() {
 				if p := recover(); p != nil {
 					panicked = p
@@ -102,15 +103,37 @@ func c09FileWriterDirect(r *Run, faults bool) {
 		if !faults {
 			continue
 		}
-		// the same calls over a writer refusing Write k
+		// the same calls over a writer refusing Write k; every other history over a writer that
+		// also offers WriteByte, WriteString and ReadFrom (bufio.Writer, bytes.Buffer and many
+		// network writers do), each of which may be the call that is refused, once
+		rich := it%2 == 1
+		if rich {
+			ffr := &w9RecWriter{failAt: -1}
+			if errs, pn, _ := run(w9RichWriter{ffr}); pn != nil || len(errs) > 0 {
+				r.Fail(-1, "call-failed", fmt.Sprintf("FileWriter used directly on a working writer with WriteByte/WriteString/ReadFrom: errors %v panic %v", errs, pn), desc)
+				continue
+			}
+			if len(ffr.acc) != len(ff.acc) {
+				r.Fail(-1, "length-mismatch", fmt.Sprintf("%d bytes reach a writer that also has WriteByte/WriteString/ReadFrom, %d a plain one", len(ffr.acc), len(ff.acc)), desc)
+				continue
+			}
+			ff = ffr
+			r.Count("filewriter-direct/rich-writer")
+		}
 		for k := 0; k < len(ff.chunks); k++ {
 			partial := 0
 			if len(ff.chunks[k]) > 1 && r.Rng.Intn(2) == 0 {
 				partial = 1 + r.Rng.Intn(len(ff.chunks[k])-1)
 			}
 			w := &w9RecWriter{failAt: k, partial: partial}
-			errs, pn, _ := run(w)
-			d2 := withKV(desc, "fail_at_write", k)
+			var errs []error
+			var pn any
+			if rich {
+				errs, pn, _ = run(w9RichWriter{w})
+			} else {
+				errs, pn, _ = run(w)
+			}
+			d2 := withKV(withKV(desc, "fail_at_write", k), "writer_has_WriteByte_WriteString_ReadFrom", rich)
 			r.Count("filewriter-direct/fault-runs")
 			wantLen := partial
 			for _, ch := range ff.chunks[:k] {
@@ -131,4 +154,23 @@ func c09FileWriterDirect(r *Run, faults bool) {
 			}
 		}
 	}
+}
+
+// w9RichWriter: a recording / failing writer that also has the optional methods libraries
+// look for.  Each of them is one call of the underlying writer, so each can be the refused one.
+type w9RichWriter struct{ w *w9RecWriter }
+
+func (x w9RichWriter) Write(p []byte) (int, error) { return x.w.Write(p) }
+func (x w9RichWriter) WriteByte(c byte) error {
+	_, err := x.w.Write([]byte{c})
+	return err
+}
+func (x w9RichWriter) WriteString(s string) (int, error) { return x.w.Write([]byte(s)) }
+func (x w9RichWriter) ReadFrom(rd io.Reader) (int64, error) {
+	data, err := io.ReadAll(rd)
+	if err != nil {
+		return 0, err
+	}
+	n, err := x.w.Write(data)
+	return int64(n), err
 }
